@@ -757,6 +757,16 @@ func (x *Explorer) Truth(v ssa.Value, st *State) (val, known bool) {
 	return false, false
 }
 
+// CellTruth: the truth of the boolean last stored through addr on this path
+// (known only while the explorer still tracks the cell's content).
+func (x *Explorer) CellTruth(addr ssa.Value, st *State) (val, known bool) {
+	m, ok := st.mem[x.key(addr, st)]
+	if !ok {
+		return false, false
+	}
+	return truthOfKey(m, st)
+}
+
 func truthOfKey(k string, st *State) (val, known bool) {
 	neg := false
 	for strings.HasPrefix(k, "!") {
